@@ -392,10 +392,12 @@ func (fr *Frame) execInstr(in ssa.Instruction, pc *Term, st *State) *Term {
 		switch u := et.Underlying().(type) {
 		case *types.Struct:
 			ref := x.freshRef("obj")
+			fr.distinctFromLive(ref)
 			l = &Loc{Kind: LObj, Ref: ref, T: et}
 			x.store(st, l, x.zeroValue(et))
 		case *types.Array:
 			ref := x.freshRef("arr")
+			fr.distinctFromLive(ref)
 			l = &Loc{Kind: LArr, Ref: ref, T: u.Elem()}
 			if scalarSort(u.Elem()) != nil {
 				x.store(st, l, x.zeroValue(et))
@@ -476,6 +478,7 @@ func (fr *Frame) execInstr(in ssa.Instruction, pc *Term, st *State) *Term {
 		x.assume(pc, B.And(B.Le(B.Int(0), ln), B.Le(ln, cp), B.Le(cp, B.BigInt(maxLen))), "make succeeded")
 		et := v.Type().Underlying().(*types.Slice).Elem()
 		base := x.freshRef("mk")
+		fr.distinctFromLive(base)
 		x.zeroBacking(st, base, et)
 		fr.vals[v] = Value{T: v.Type(), L: []*Term{base, B.Int(0), ln, cp}}
 	case *ssa.MakeMap:
@@ -608,6 +611,34 @@ func describeInstr(v ssa.Value) string {
 	return describe(v)
 }
 
+// distinctFromLive: a freshly allocated object is different from every
+// pointer, slice backing array and map that already exists in this frame.
+func (fr *Frame) distinctFromLive(r *Term) {
+	x := fr.x
+	seen := map[int]bool{}
+	for sv, v := range fr.vals {
+		if len(v.L) == 0 {
+			continue
+		}
+		switch sv.Type().Underlying().(type) {
+		case *types.Slice, *types.Pointer, *types.Map, *types.Chan:
+			t := v.L[0]
+			if t == r || t.Op == "int" || seen[t.id] || x.isFresh[t] {
+				continue
+			}
+			seen[t.id] = true
+			x.assumeGlobal(x.B.Neq(t, r), "fresh allocation differs from existing objects")
+		case *types.Interface:
+			t := v.L[1]
+			if t == r || t.Op == "int" || seen[t.id] || x.isFresh[t] {
+				continue
+			}
+			seen[t.id] = true
+			x.assumeGlobal(x.B.Neq(t, r), "fresh allocation differs from existing objects")
+		}
+	}
+}
+
 func (x *X) freshRef(prefix string) *Term {
 	t := x.B.Fresh(prefix, IntSort)
 	// fresh allocations are non-nil, positive and distinct from each other
@@ -620,6 +651,7 @@ func (x *X) freshRef(prefix string) *Term {
 	}
 	x.freshRefs = append(x.freshRefs, t)
 	x.isFresh[t] = true
+	x.unescaped[t] = true
 	return t
 }
 
@@ -1340,7 +1372,11 @@ func (fr *Frame) cutLoop(lp *Loop, pc *Term, st *State) (*Term, *State) {
 	// 1. invariant on entry
 	var invs []*Clause
 	if fr.contract != nil {
-		invs = fr.contract.LoopInv[lp.Ordinal]
+		for _, inv := range fr.contract.LoopInv[lp.Ordinal] {
+			if x.active(inv) {
+				invs = append(invs, inv)
+			}
+		}
 	}
 	fr.loopEntry[lp.Header] = st.clone()
 	for _, inv := range invs {
@@ -1488,6 +1524,9 @@ func (fr *Frame) checkBackEdge(from, to *ssa.BasicBlock, pc *Term, st *State) {
 		}
 	}
 	for _, inv := range fr.contract.LoopInv[lp.Ordinal] {
+		if !x.active(inv) {
+			continue
+		}
 		t := fr.evalInvariant(inv, lp, st, phiVals)
 		lbl := inv.Label
 		if lbl == "" {
